@@ -21,7 +21,14 @@ pub fn run(rec: &mut Recorder, w: &mut World, tier: &str, seed: u64) {
     let mut hists: Vec<Vec<MOp>> = vec![];
     for a in &alpha { hists.push(vec![a.clone()]); for b2 in &alpha { hists.push(vec![a.clone(), b2.clone()]); } }
     let n_ex = hists.len();
-    for _ in 0..n_hist { let len = 1 + rng.below(maxlen); hists.push((0..len).map(|_| random_op(&mut rng, &u)).collect()); }
+    for hi in 0..n_hist {
+        let len = 1 + rng.below(maxlen);
+        let mut h: Vec<MOp> = (0..len).map(|_| random_op(&mut rng, &u)).collect();
+        // every sixth history adds, somewhere, a grouping rule with fewer fields than its definition has places: the adapter
+        // and the model take it, the link step refuses it (the call reports an error) - store and memory must still agree
+        if hi % 6 == 5 { let at = rng.below(h.len() + 1); h.insert(at, MOp::Add("g".into(), "g".into(), sv(&[*rng.pick(&["bob", "alice", "zed"])]))); }
+        hists.push(h);
+    }
     for (hi, hist) in hists.iter().enumerate() {
         rec.begin();
         new_enforcer(rec, w, &m, "memory", &[], "", false);
@@ -52,7 +59,12 @@ pub fn run(rec: &mut Recorder, w: &mut World, tier: &str, seed: u64) {
         let before = observe(rec, w, &u, &refs, false);
         let r = rec.exec(w, "e.load");
         let after = observe(rec, w, &u, &refs, false);
-        if r != "ok" || before.pol != after.pol || before.dec != after.dec {
+        // with an unlinkable grouping rule stored, the reload's link step fails and the previous state is restored (C10)
+        let unlinkable = hist.iter().any(|o| matches!(o, MOp::Add(sec, _, r) if sec == "g" && r.len() < 2));
+        if unlinkable { rec.count("history:with-unlinkable-grouping-rule"); }
+        // (the links in force before depend on the order in which the calls built them, the restored ones on the stored order -
+        //  see DESIGN 11.6 on C10: with such a rule stored only the rules are compared)
+        if (r != "ok" && !(unlinkable && r.starts_with("err"))) || before.pol != after.pol || (!unlinkable && before.dec != after.dec) {
             rec.fail("load-policy-not-identity", format!("after {}: load_policy -> {} changed {} / {} into {} / {}", descr.join(" ; "), r, before.pol, before.dec, after.pol, after.dec));
         }
         rec.nontrivial_case(&format!("a|{}", descr.join("|")));
